@@ -291,6 +291,7 @@ func (s *scope) closeFromOwner() error {
 		<-s.closeDone
 		return s.closeErr
 	}
+	verifPoint("scope.closeFromOwner.won")
 
 	err := s.dispose()
 	s.closeErr = err
